@@ -1253,21 +1253,52 @@ def spec_access_route(v, env, hops, remote, xff_pieces):
 ROUTE_INLINE = [PARSE_HOST, WREQ + '.get_header', WREQ + '.forwarded', WREQ + '.remote_addr']
 
 
-@harness(PROP, WREQ + '.access_route', setup=_base_setup, inline=ROUTE_INLINE)
-def wsgi_access_route(v):
-    env = wsgi_env(v, optional=ROUTE_KEYS)
+def route_env(v):
+    """Which of the route headers are present (REMOTE_ADDR is optional in the environ too)."""
+    src = v.choose(4, 'route-source')  # 0 Forwarded, 1 X-Forwarded-For, 2 X-Real-IP, 3 none of them
+    env = {}
+    if src == 0:
+        env['HTTP_FORWARDED'] = v.str('HTTP_FORWARDED')
+    lower = v.choose(2, 'lower-priority-headers-too') if src < 2 else 0
+    if src == 1 or (src == 0 and lower):
+        env['HTTP_X_FORWARDED_FOR'] = v.str('HTTP_X_FORWARDED_FOR')
+    if src == 2 or (src <= 1 and lower):
+        env['HTTP_X_REAL_IP'] = v.str('HTTP_X_REAL_IP')
+    if v.choose(2, 'has-REMOTE_ADDR'):
+        env['REMOTE_ADDR'] = v.str('REMOTE_ADDR')
+    return env
+
+
+def route_hops(v):
+    """Forwarded elements: none; one with any "for"; two, the second one a bare node name (parse_host treats every element alike)."""
+    def mk():
+        n = v.choose(3, 'hops')
+        hops = [hop(v, i, ('src',)) for i in range(n)]
+        if n == 2 and hops[1].src is not None:
+            v.assume(And(Not(contains(hops[1].src, ':')), Not(hops[1].src.startswith('['))))
+        return hops
+
+    return Parser(v, '_parse_forwarded_header', [mk])
+
+
+def _access_route(v, retry):
+    env = route_env(v)
     req = wsgi_req(v, env)
     remote = env.get('REMOTE_ADDR', '127.0.0.1')
-    parser = forwarded_parser(v, max_hops=2, fields=('src',))
+    parser = route_hops(v)
     # bounded: at most MAX_PIECES comma-separated addresses in X-Forwarded-For (the comprehension treats every piece alike)
-    xff = bounded_split(v, env['HTTP_X_FORWARDED_FOR'], ',', MAX_PIECES) if 'HTTP_X_FORWARDED_FOR' in env else None
+    xff = bounded_split(v, env['HTTP_X_FORWARDED_FOR'], ',', MAX_PIECES) if 'HTTP_X_FORWARDED_FOR' in env and 'HTTP_FORWARDED' not in env else None
     with patched(v, WM, '_parse_forwarded_header', parser):
         out = v.call(req)
+        if retry:
+            if out.exc is not None:
+                again = v.call(req)
+                v.check('failed-access-leaves-no-partial-route-cached', again.exc is not None and again.exc.cls is out.exc.cls)
+                v.cover('failed')
+            return
         escape_only_400(v, out)
         n1 = len(parser.calls)
         if out.exc is not None:
-            again = v.call(req)
-            v.check('failed-access-leaves-no-partial-route-cached', again.exc is not None and again.exc.cls is out.exc.cls)
             return
         want = spec_access_route(v, env, hops_of(parser), remote, xff)
         v.check('route-is-forwarded-then-x-forwarded-for-then-x-real-ip-then-remote-addr', same_value(list(out.value), want))
@@ -1278,6 +1309,13 @@ def wsgi_access_route(v):
         again = v.call(req)
         v.check('second-access-returns-the-identical-list-without-recomputing', again.exc is None and again.value is out.value and len(parser.calls) == n1)
         v.cover('route')
+
+
+for _src, _nm in ((0, 'forwarded'), (1, 'x-forwarded-for'), (2, 'x-real-ip'), (3, 'remote-addr')):
+    harness(PROP, WREQ + '.access_route', name='wsgi_access_route[%s]' % _nm, setup=_base_setup, inline=ROUTE_INLINE, fix={'route-source': _src})(
+        lambda v: _access_route(v, False))
+harness(PROP, WREQ + '.access_route', name='wsgi_access_route_retry', setup=_base_setup, inline=ROUTE_INLINE,
+        fix={'route-source': 0, 'lower-priority-headers-too': 0, 'has-REMOTE_ADDR': 0})(lambda v: _access_route(v, True))
 
 
 @harness(PROP, WREQ + '.remote_addr', setup=_base_setup)
@@ -1359,6 +1397,484 @@ def _accepts_property(media_types):
 for _prop, _mts in (('client_accepts_json', ['application/json']), ('client_accepts_xml', ['application/xml']),
                     ('client_accepts_msgpack', ['application/x-msgpack', 'application/msgpack'])):
     harness(PROP, WREQ + '.' + _prop, name='wsgi_' + _prop, setup=_base_setup, inline=[WREQ + '.accept', WREQ + '.client_accepts'])(_accepts_property(_mts))
+
+
+# ---------------------------------------------------------------------------
+# ASGI twins (falcon/asgi/request.py): headers are a dict bytes -> bytes with lower-cased names; values decode as latin-1
+
+_BYTES_RE = None
+
+
+def header_bytes(v, name):
+    """A header value as the ASGI server delivers it: any byte string (code points 0..255)."""
+    global _BYTES_RE
+    b = v.bytes(name)
+    if isinstance(b, SStr):
+        if _BYTES_RE is None:
+            _BYTES_RE = z3.Star(z3.Range(z3.StringVal(chr(0)), z3.StringVal(chr(255))))
+        v.assume(mk_bool(z3.InRe(b.t, _BYTES_RE)))
+    return b
+
+
+def as_text(b):
+    return SStr(b.t, 'str') if isinstance(b, SStr) else b.decode('latin-1')
+
+
+def env_key(header):
+    return 'HTTP_' + header.upper().replace('-', '_')
+
+
+def asgi_headers(v, optional=(), always=()):
+    """(headers, view): the ASGI header dict and the same request seen as a WSGI environ (what the shared specifications read)."""
+    headers, view = {}, {}
+    for h in list(always) + [h for h in optional if v.choose(2, 'has-' + h)]:
+        b = header_bytes(v, h)
+        headers[h.encode()] = b
+        view['CONTENT_LENGTH' if h == 'content-length' else env_key(h)] = as_text(b)
+    return headers, view
+
+
+def asgi_scope(v, server=True, client=True, scheme=True):
+    """The connection scope as far as the accessors read it (ASGI HTTP spec: scheme, server, client, root_path are optional)."""
+    scope = {'type': 'http'}
+    if scheme and v.choose(2, 'scope-has-scheme'):
+        scope['scheme'] = v.one_of('scheme', 'http', 'https', 'wss')
+    if server:
+        k = v.choose(3, 'scope-server')  # 0 missing, 1 None, 2 (name, port)
+        if k == 1:
+            scope['server'] = None
+        elif k == 2:
+            scope['server'] = (v.str('server_name'), v.one_of('server-port', 80, 443, 8000))
+    if client and v.choose(2, 'scope-has-client'):
+        scope['client'] = (v.str('client_addr'), 50000)
+    return scope
+
+
+def asgi_req(v, headers, scope=None, **fields):
+    f = dict(is_websocket=False, uri_template=None)
+    f.update(fields)
+    return v.obj(AREQ, _asgi_headers=headers, scope=scope if scope is not None else {'type': 'http'}, **f)
+
+
+def a_scheme(scope, is_websocket=False):
+    return scope.get('scheme', 'ws' if is_websocket else 'http')
+
+
+def a_secure(scope):
+    return a_scheme(scope) in ('https', 'wss')
+
+
+def a_server(scope):
+    srv = scope.get('server')
+    return tuple(srv) if srv is not None else ('localhost', 443 if a_secure(scope) else 80)
+
+
+def a_netloc(view, scope):
+    if 'HTTP_HOST' in view:
+        return view['HTTP_HOST']
+    name, port = a_server(scope)
+    return name if port == (443 if a_secure(scope) else 80) else name + ':' + str(port)
+
+
+def wsgi_view(view, scope):
+    """The ASGI request in the vocabulary of the WSGI specifications above."""
+    env = dict(view)
+    name, port = a_server(scope)
+    env['wsgi.url_scheme'] = a_scheme(scope)
+    env['SERVER_NAME'], env['SERVER_PORT'] = name, str(port)
+    return env
+
+
+AGET = AREQ + '.get_header'
+
+
+@stubclass
+class NameCache:
+    """The process-wide name cache of asgi get_header in an arbitrary state satisfying its invariant cache[n] == n.lower().encode('latin1')."""
+
+    def __init__(self, v):
+        self.v = v
+        self.stored = []
+
+    def __pyvc_getitem__(self, name):
+        if self.v.choose(2, 'name-cache-hit'):
+            return name.lower().encode('latin1')
+        throw(self.v, KeyError, 'name')
+
+    def __pyvc_setitem__(self, name, value):
+        self.v.check('name-cache-entry-is-the-lowercased-latin1-name', value == name.lower().encode('latin1'))
+        self.stored.append(name)
+
+    def __pyvc_len__(self):
+        return self.v.int('name_cache_size', 0)
+
+
+def name_cache(v, name):
+    if not v.concrete:
+        return NameCache(v)
+    return {name: name.lower().encode('latin1')} if v.choose(2, 'name-cache-hit') else {}
+
+
+def latin1_name(v, base):
+    name = v.str(base)
+    if isinstance(name, SStr):
+        v.assume(mk_bool(z3.InRe(name.t, z3.Star(z3.Range(z3.StringVal(chr(0)), z3.StringVal(chr(127)))))))
+    else:
+        v.assume(all(ord(c) < 128 for c in name))
+    return name
+
+
+@harness(PROP, AGET, name='asgi_get_header', setup=_base_setup)
+def asgi_get_header(v):
+    headers, view = asgi_headers(v, optional=['x-token', 'content-type'])
+    req = asgi_req(v, headers)
+    name = latin1_name(v, 'name')  # header names are ASCII tokens (RFC 9110); the name is chosen by the application
+    required = bool(v.choose(2, 'required'))
+    default = v.str('default') if v.choose(2, 'default-given') else None
+    out = v.call(req, name, required=required, default=default, _name_cache=name_cache(v, name))
+    escape_only_400(v, out)
+    key = name.lower().encode('latin1')
+    found = None
+    for k in headers:
+        if key == k:
+            found = as_text(headers[k])
+            break
+    if found is not None:
+        v.check('present-header-returns-its-value', out.exc is None and out.value is not None and out.value == found)
+        v.cover('present')
+    elif required:
+        v.check('missing-required-header-raises-missing-header-400', out.exc is not None and out.exc.isa(v.real('falcon:HTTPMissingHeader')))
+        v.cover('missing-required')
+    else:
+        v.check('missing-optional-header-returns-the-default', out.exc is None and same_value(out.value, default))
+        v.cover('missing-optional')
+
+
+@harness(PROP, AGET, name='asgi_get_header_case_insensitive', setup=_base_setup)
+def asgi_get_header_case_insensitive(v):
+    headers, view = asgi_headers(v, optional=['x-token', 'content-type'])
+    req = asgi_req(v, headers)
+    n1, n2 = latin1_name(v, 'name1'), latin1_name(v, 'name2')
+    v.assume(n1.lower() == n2.lower())
+    required = bool(v.choose(2, 'required'))
+    o1 = v.call(req, n1, required=required, _name_cache=name_cache(v, n1))
+    o2 = v.call(req, n2, required=required, _name_cache=name_cache(v, n2))
+    v.check('lookup-depends-on-the-name-only-through-its-lowercased-form', same_outcome(o1, o2))
+    v.cover('two-spellings')
+
+
+@harness(PROP, AGET, name='asgi_get_header_casings', setup=_base_setup)
+def asgi_get_header_casings(v):
+    headers, view = asgi_headers(v, always=['x-token'])
+    req = asgi_req(v, headers)
+    name = v.one_of('spelling', 'X-Token', 'x-token', 'X-TOKEN', 'x-ToKeN')
+    out = v.call(req, name, required=True)
+    v.check('any-casing-of-the-name-finds-the-header', out.exc is None and out.value == view['HTTP_X_TOKEN'])
+
+
+@harness(PROP, AREQ + '.content_length', name='asgi_content_length', setup=_base_setup)
+def asgi_content_length(v):
+    if v.choose(2, 'minus-digits'):
+        d = header_bytes(v, 'digits')
+        v.assume(is_digits(d))
+        v.assume(digits_value(d) > 0)
+        raw = b'-' + d
+        if isinstance(raw, SStr):
+            v.assume(mk_bool(z3.And(PY_INT_OK(raw.t), PY_INT(raw.t) == -z3.StrToInt(d.t))))
+        headers = {b'content-length': raw}
+    else:
+        d = None
+        headers, view = asgi_headers(v, optional=['content-length'])
+    req = asgi_req(v, headers)
+    out = v.call(req)
+    spec_content_length(v, headers.get(b'content-length'), out, d)
+
+
+@harness(PROP, WREQ + '.range', name='asgi_range', setup=_base_setup, inline=[AGET])
+def asgi_range(v):
+    headers, view = asgi_headers(v, optional=['range'])
+    out = v.call(asgi_req(v, headers))
+    spec_range(v, view.get('HTTP_RANGE'), out)
+
+
+@harness(PROP, WREQ + '.range_unit', name='asgi_range_unit', setup=_base_setup, inline=[AGET])
+def asgi_range_unit(v):
+    headers, view = asgi_headers(v, optional=['range'])
+    out = v.call(asgi_req(v, headers))
+    spec_range_unit(v, view.get('HTTP_RANGE'), out)
+
+
+@harness(PROP, WREQ + '.get_header_as_int', name='asgi_get_header_as_int', setup=_base_setup, inline=[AGET])
+def asgi_get_header_as_int(v):
+    headers, view = asgi_headers(v, optional=['x-count'])
+    required = bool(v.choose(2, 'required'))
+    out = v.call(asgi_req(v, headers), 'X-Count', required=required)
+    raw = view.get('HTTP_X_COUNT')
+    escape_only_400(v, out)
+    if raw is None:
+        v.check('missing-header-is-None-or-missing-header-400', out.exc.isa(v.real('falcon:HTTPMissingHeader')) if required and out.exc is not None else (not required and out.exc is None and out.value is None))
+    elif is_digits(raw):
+        v.check('digits-yield-their-value', out.exc is None and out.value is not None and out.value == digits_value(raw))
+    elif not py_int_ok(raw):
+        v.check('not-a-number-is-invalid-header-400', out.exc is not None and out.exc.isa(v.real('falcon:HTTPInvalidHeader')))
+
+
+@harness(PROP, WREQ + '.if_modified_since', name='asgi_if_modified_since', setup=_base_setup, inline=[AGET, WREQ + '.get_header_as_datetime'])
+def asgi_if_modified_since(v):
+    headers, view = asgi_headers(v, optional=['if-modified-since'])
+    parser = date_parser(v)
+    with patched(v, 'falcon.util', 'http_date_to_dt', parser):
+        out = v.call(asgi_req(v, headers))
+    spec_datetime(v, view.get('HTTP_IF_MODIFIED_SINCE'), False, parser, out, 'If-Modified-Since')
+
+
+def _asgi_etag_property(header, field):
+    def h(v):
+        UNSET = v.real('falcon._typing:_UNSET')
+        headers, view = asgi_headers(v, optional=[header])
+        req = asgi_req(v, headers)
+        raw = view.get(env_key(header))
+        parser = Parser(v, '_parse_etags', [lambda: [Opaque('etag')], lambda: None])
+        with patched(v, HELPERS, '_parse_etags', parser):
+            out = v.call(req)
+            escape_only_400(v, out)
+            if raw is None or Len(raw) == 0:
+                v.check('absent-or-empty-is-None', out.exc is None and out.value is None and len(parser.calls) == 0)
+            else:
+                ok = len(parser.calls) == 1
+                v.check('etag-parser-called-exactly-once-with-the-decoded-header-value', ok and len(parser.calls[0][0]) == 1 and parser.calls[0][0][0] == raw)
+                if not ok:
+                    return
+                v.check('parsed-entity-tags-returned', out.exc is None and out.value is parser.returned[0])
+                v.cover('parsed')
+            n1 = len(parser.calls)
+            v.check('result-cached', v.get(req, field) is not UNSET and v.get(req, field) is out.value)
+            headers[header.encode()] = header_bytes(v, header + '_later')
+            again = v.call(req)
+            v.check('second-access-returns-the-identical-value-without-parsing-again', again.exc is None and again.value is out.value and len(parser.calls) == n1)
+
+    return h
+
+
+harness(PROP, AREQ + '.if_match', name='asgi_if_match', setup=_base_setup)(_asgi_etag_property('if-match', '_cached_if_match'))
+harness(PROP, AREQ + '.if_none_match', name='asgi_if_none_match', setup=_base_setup)(_asgi_etag_property('if-none-match', '_cached_if_none_match'))
+
+
+@harness(PROP, WREQ + '.cookies', name='asgi_cookies', setup=_base_setup, inline=[AGET])
+def asgi_cookies(v):
+    headers, view = asgi_headers(v, optional=['cookie'])
+    req = asgi_req(v, headers)
+    raw = view.get('HTTP_COOKIE')
+    parser = cookie_parser(v)
+    with patched(v, HELPERS, '_parse_cookie_header', parser):
+        out = v.call(req)
+        escape_only_400(v, out)
+        if out.exc is not None:
+            return
+        if raw is None or Len(raw) == 0:
+            v.check('absent-or-empty-cookie-header-is-an-empty-mapping', isinstance(out.value, dict) and len(out.value) == 0 and len(parser.calls) == 0)
+        else:
+            ok = len(parser.calls) == 1 and len(parser.calls[0][0]) == 1
+            v.check('cookie-parser-called-exactly-once-with-the-header-value', ok and parser.calls[0][0][0] == raw)
+            if not ok:
+                return
+            v.check('each-cookie-maps-to-its-first-value', dict_eq(out.value, {n: vals[0] for n, vals in parser.returned[0].items()}))
+        n1 = len(parser.calls)
+        headers[b'cookie'] = header_bytes(v, 'cookie_later')
+        again = v.call(req)
+        v.check('second-access-returns-the-identical-mapping-without-parsing-again', again.exc is None and again.value is out.value and len(parser.calls) == n1)
+
+
+A_INLINE = [AGET, PARSE_HOST, AREQ + '.scheme', AREQ + '._secure_scheme', AREQ + '._asgi_server', AREQ + '.netloc', AREQ + '.root_path', AREQ + '.host',
+            WREQ + '.forwarded', WREQ + '.relative_uri', AREQ + '.forwarded_scheme', AREQ + '.forwarded_host']
+
+
+@harness(PROP, AREQ + '.scheme', name='asgi_scheme', setup=_base_setup)
+def asgi_scheme(v):
+    scope = asgi_scope(v, server=False, client=False)
+    ws = bool(v.choose(2, 'websocket'))
+    out = v.call(asgi_req(v, {}, scope, is_websocket=ws))
+    v.check('scheme-is-the-scope-scheme-or-the-default-of-the-scope-type', out.exc is None and out.value == a_scheme(scope, ws))
+
+
+def _asgi_host_port(what):
+    def h(v):
+        scope = asgi_scope(v, client=False)
+        headers, view = asgi_headers(v, optional=['host'])
+        out = v.call(asgi_req(v, headers, scope))
+        env = wsgi_view(view, scope)
+        env['wsgi.url_scheme'] = 'https' if a_secure(scope) else 'http'  # the default port follows "secure or not"
+        spec_host_port(v, env, out, what)
+
+    return h
+
+
+harness(PROP, AREQ + '.host', name='asgi_host', setup=_base_setup, inline=A_INLINE)(_asgi_host_port('host'))
+harness(PROP, AREQ + '.port', name='asgi_port', setup=_base_setup, inline=A_INLINE)(_asgi_host_port('port'))
+
+
+@harness(PROP, AREQ + '.netloc', name='asgi_netloc', setup=_base_setup, inline=A_INLINE)
+def asgi_netloc(v):
+    scope = asgi_scope(v, client=False)
+    headers, view = asgi_headers(v, optional=['host'])
+    out = v.call(asgi_req(v, headers, scope))
+    escape_only_400(v, out)
+    v.check('host-header-verbatim-else-server-with-port-omitted-iff-default', out.exc is None and out.value == a_netloc(view, scope))
+    v.cover('netloc')
+
+
+@harness(PROP, AREQ + '.forwarded_scheme', name='asgi_forwarded_scheme', setup=_base_setup, inline=A_INLINE)
+def asgi_forwarded_scheme(v):
+    scope = asgi_scope(v, server=False, client=False)
+    headers, view = asgi_headers(v, optional=['forwarded', 'x-forwarded-proto'])
+    parser = forwarded_parser(v, max_hops=2, fields=('scheme',))
+    with patched(v, WM, '_parse_forwarded_header', parser):
+        out = v.call(asgi_req(v, headers, scope))
+    escape_only_400(v, out)
+    v.check('first-hop-proto-then-x-forwarded-proto-then-own-scheme', out.exc is None and out.value == spec_forwarded_scheme(wsgi_view(view, scope), hops_of(parser)))
+
+
+def a_forwarded_host(view, scope, hops):
+    if 'HTTP_FORWARDED' in view:
+        if hops and hops[0].host is not None and _nonempty(hops[0].host):
+            return hops[0].host
+        return a_netloc(view, scope)
+    if 'HTTP_X_FORWARDED_HOST' in view:
+        return view['HTTP_X_FORWARDED_HOST']
+    return a_netloc(view, scope)
+
+
+@harness(PROP, AREQ + '.forwarded_host', name='asgi_forwarded_host', setup=_base_setup, inline=A_INLINE)
+def asgi_forwarded_host(v):
+    scope = asgi_scope(v, client=False)
+    headers, view = asgi_headers(v, optional=['forwarded', 'x-forwarded-host', 'host'])
+    parser = forwarded_parser(v, max_hops=1, fields=('host',))
+    with patched(v, WM, '_parse_forwarded_header', parser):
+        out = v.call(asgi_req(v, headers, scope))
+    escape_only_400(v, out)
+    v.check('first-hop-host-then-x-forwarded-host-then-own-netloc', out.exc is None and out.value == a_forwarded_host(view, scope, hops_of(parser)))
+
+
+def _asgi_url_property(prop, field, forwarded):
+    def h(v):
+        scope = asgi_scope(v, client=False)
+        if v.choose(2, 'scope-has-root_path'):
+            scope['root_path'] = v.str('root_path')
+        headers, view = asgi_headers(v, optional=['host'] + (['forwarded', 'x-forwarded-proto', 'x-forwarded-host'] if forwarded else []))
+        path, qs = v.str('path'), v.str('query_string')
+        req = asgi_req(v, headers, scope, path=path, query_string=qs)
+        parser = forwarded_parser(v, max_hops=1, fields=('host', 'scheme'))
+        with patched(v, WM, '_parse_forwarded_header', parser):
+            out = v.call(req)
+            escape_only_400(v, out)
+            if out.exc is not None:
+                return
+            hops = hops_of(parser)
+            root = scope.get('root_path', '')
+            scheme = spec_forwarded_scheme(wsgi_view(view, scope), hops) if forwarded else a_scheme(scope)
+            netloc = a_forwarded_host(view, scope, hops) if forwarded else a_netloc(view, scope)
+            rel = Ite(Len(qs) > 0, root + path + '?' + qs, root + path)
+            want = rel if prop == 'relative_uri' else scheme + '://' + netloc + (rel if prop.endswith('uri') else root)
+            v.check('value-is-the-concatenation-of-its-parts', out.value == want)
+            v.check('result-cached', v.get(req, field) is not None and v.get(req, field) == out.value)
+            n1 = len(parser.calls)
+            for k in list(headers):
+                headers[k] = header_bytes(v, k.decode() + '_later')
+            v.set(req, 'path', v.str('path_later'))
+            v.set(req, 'query_string', v.str('query_string_later'))
+            v.set(req, 'scope', {'type': 'http', 'scheme': 'https', 'server': ('elsewhere', 1), 'root_path': '/moved'})
+            v.set(req, '_cached_forwarded', None)
+            again = v.call(req)
+            v.check('second-access-returns-the-first-value-without-recomputing', again.exc is None and again.value == out.value and len(parser.calls) == n1)
+            v.cover('composed')
+
+    return h
+
+
+for _prop, _field, _fwd in (('uri', '_cached_uri', False), ('prefix', '_cached_prefix', False), ('relative_uri', '_cached_relative_uri', False),
+                            ('forwarded_uri', '_cached_forwarded_uri', True), ('forwarded_prefix', '_cached_forwarded_prefix', True)):
+    harness(PROP, WREQ + '.' + _prop, name='asgi_' + _prop, setup=_base_setup, inline=A_INLINE)(_asgi_url_property(_prop, _field, _fwd))
+
+
+def _asgi_access_route(v, mode):
+    """mode: 'route' (values, memoisation, escape), 'retry' (failed first access), 'client-none' (scope['client'] is None)."""
+    src = v.choose(4, 'route-source')
+    names = [['forwarded'], ['x-forwarded-for'], ['x-real-ip'], []][src]
+    if src < 2 and v.choose(2, 'lower-priority-headers-too'):
+        names = names + ['x-real-ip'] + (['x-forwarded-for'] if src == 0 else [])
+    headers, view = asgi_headers(v, always=names)
+    scope = {'type': 'http'}
+    if mode == 'client-none':
+        scope['client'] = None
+    elif v.choose(2, 'scope-has-client'):
+        scope['client'] = (v.str('client_addr'), 50000)
+    req = asgi_req(v, headers, scope)
+    client = scope['client'][0] if scope.get('client') else '127.0.0.1'
+    parser = route_hops(v)
+    xff = bounded_split(v, view['HTTP_X_FORWARDED_FOR'], ',', MAX_PIECES) if src == 1 else None
+    with patched(v, WM, '_parse_forwarded_header', parser):
+        out = v.call(req)
+        if mode == 'client-none':
+            # ASGI HTTP scope: "client ... Optional; if missing defaults to None"
+            v.check('escape-only-400-class-when-scope-client-is-None', out.exc is None or out.exc.isa(v.real('falcon:HTTPBadRequest')))
+            return
+        if mode == 'retry':
+            if out.exc is not None:
+                again = v.call(req)
+                v.check('failed-access-leaves-no-partial-route-cached', again.exc is not None and again.exc.cls is out.exc.cls)
+                v.cover('failed')
+            return
+        escape_only_400(v, out)
+        n1 = len(parser.calls)
+        if out.exc is not None:
+            return
+        env = dict(view)
+        want = spec_access_route(v, env, hops_of(parser), client, xff)
+        if 'client' in scope and not _nonempty(client) and want == [client]:
+            want = []  # documented ASGI difference: an empty client address is not appended to an empty route
+        v.check('route-is-forwarded-then-x-forwarded-for-then-x-real-ip-then-client', same_value(list(out.value), want))
+        v.check('result-cached', v.get(req, '_cached_access_route') is out.value)
+        for k in list(headers):
+            headers[k] = header_bytes(v, k.decode() + '_later')
+        v.set(req, '_cached_forwarded', None)
+        again = v.call(req)
+        v.check('second-access-returns-the-identical-list-without-recomputing', again.exc is None and again.value is out.value and len(parser.calls) == n1)
+        v.cover('route')
+
+
+A_ROUTE_INLINE = [AGET, PARSE_HOST, WREQ + '.forwarded']
+for _src, _nm in ((0, 'forwarded'), (1, 'x-forwarded-for'), (2, 'x-real-ip'), (3, 'client')):
+    harness(PROP, AREQ + '.access_route', name='asgi_access_route[%s]' % _nm, setup=_base_setup, inline=A_ROUTE_INLINE, fix={'route-source': _src})(
+        lambda v: _asgi_access_route(v, 'route'))
+harness(PROP, AREQ + '.access_route', name='asgi_access_route_retry', setup=_base_setup, inline=A_ROUTE_INLINE,
+        fix={'route-source': 0, 'lower-priority-headers-too': 0, 'scope-has-client': 0})(lambda v: _asgi_access_route(v, 'retry'))
+harness(PROP, AREQ + '.access_route', name='asgi_access_route_client_none', setup=_base_setup, inline=A_ROUTE_INLINE,
+        fix={'route-source': 3})(lambda v: _asgi_access_route(v, 'client-none'))
+
+
+@harness(PROP, AREQ + '.remote_addr', name='asgi_remote_addr', setup=_base_setup, inline=A_ROUTE_INLINE + [AREQ + '.access_route'])
+def asgi_remote_addr(v):
+    """remote_addr is the last element of access_route (documented); with no route headers that is the client address."""
+    scope = {'type': 'http'}
+    if v.choose(2, 'scope-has-client'):
+        scope['client'] = (v.str('client_addr'), 50000)
+        v.assume(Len(scope['client'][0]) > 0)  # ASGI: a host string; an empty one yields an empty route (see NOT_DECIDED)
+    out = v.call(asgi_req(v, {}, scope))
+    escape_only_400(v, out)
+    v.check('remote-addr-is-the-client-address-or-loopback', out.exc is None and out.value == (scope['client'][0] if 'client' in scope else '127.0.0.1'))
+
+
+@harness(PROP, WREQ + '.client_accepts', name='asgi_client_accepts', setup=_base_setup, inline=[AREQ + '.accept'])
+def asgi_client_accepts(v):
+    headers, view = asgi_headers(v, optional=['accept'])
+    media_type = v.str('media_type')
+    parser = quality_parser(v)
+    with patched(v, MEDIATYPES, 'quality', parser):
+        out = v.call(asgi_req(v, headers), media_type)
+    escape_only_400(v, out)
+    want, used = spec_accepts(accept_of(view), media_type, parser, 0)
+    v.check('exact-match-or-wildcard-else-nonzero-quality-else-false', out.exc is None and want is not None and out.value is want)
+    v.check('quality-consulted-only-when-needed', len(parser.calls) == used)
 
 
 ASSUMPTIONS = []
